@@ -477,10 +477,10 @@ type observer struct {
 	limitC  int
 	stuck   string
 	onStuck func()
-	calls  int    // invocations of the plugin's Synchronize handler
-	diff   string // first difference between a delivered state and the runtime's
-	gotP   int
-	gotC   int
+	calls   int    // invocations of the plugin's Synchronize handler
+	diff    string // first difference between a delivered state and the runtime's
+	gotP    int
+	gotC    int
 }
 
 func (o *observer) intercept(ctx context.Context, um ttrpc.Unmarshaler, _ *ttrpc.UnaryServerInfo, m ttrpc.Method) (interface{}, error) {
@@ -969,7 +969,9 @@ func uniform(n, size int) ListPlan { return ListPlan{N: n, Dist: "uniform", Base
 
 func sweepCases() []C09Case {
 	var out []C09Case
-	add := func(p, c ListPlan) { out = append(out, C09Case{Pods: p, Ctrs: c, Updates: []UpdPlan{{Ctr: 0, Shares: 7, Mem: 1 << 20}}}) }
+	add := func(p, c ListPlan) {
+		out = append(out, C09Case{Pods: p, Ctrs: c, Updates: []UpdPlan{{Ctr: 0, Shares: 7, Mem: 1 << 20}}})
+	}
 	none := ListPlan{Dist: "none"}
 	add(none, none)
 	add(uniform(1, 0), none)
